@@ -15,6 +15,7 @@ import (
 	"net"
 	"sort"
 	"testing"
+	"time"
 
 	"github.com/codelaboratoryltd/bng/pkg/allocator"
 	"github.com/codelaboratoryltd/bng/pkg/state"
@@ -125,7 +126,7 @@ func TestPropSubscriberManager(t *testing.T) {
 		live := map[string]string{} // session id -> MAC
 		var order []string          // session ids in creation order (deterministic iteration)
 		macFreed := map[string]string{}
-		nt, contended, moved := false, false, false
+		nt, contended, moved, mutated := false, false, false, false
 		allowMove := !vstat.IsListed(sigSubMgrStaleIP) || rapid.IntRange(0, 2).Draw(rt, "allowPoolChange") == 0
 		lastPool := map[string]string{}
 		liveIDs := func() []string {
@@ -226,6 +227,34 @@ func TestPropSubscriberManager(t *testing.T) {
 				h.logf("assign(#%d,%s,%s)=%s", indexOf(order, ids[i]), pool, v6, okerr(err))
 				check(rt, "AssignAddress")
 			},
+			// the manager hands out its own *Session but has no submit-a-record update: sessions change through
+			// id-addressed mutators.  Each is driven on any live session; the record the caller holds (the pointer
+			// GetSession returned) gets a non-key field modified in place first, as a caller decorating it would.
+			"mutate": func(rt *rapid.T) {
+				ids := liveIDs()
+				if len(ids) == 0 {
+					rt.Skip("no session")
+				}
+				i := rapid.IntRange(0, len(ids)-1).Draw(rt, "session")
+				if p, ok := m.GetSession(ids[i]); ok && rapid.Bool().Draw(rt, "decorate") {
+					p.Username = "user-" + rapid.StringN(1, 4, -1).Draw(rt, "user")
+				}
+				how := rapid.SampledFrom([]string{"activate", "walled", "clearWalled", "activity"}).Draw(rt, "how")
+				var err error
+				switch how {
+				case "activate":
+					err = m.ActivateSession(ids[i])
+				case "walled":
+					err = m.SetWalledGarden(ids[i], "verif")
+				case "clearWalled":
+					err = m.ClearWalledGarden(ids[i])
+				default:
+					err = m.UpdateActivity(ids[i], 1, 2, 3, 4)
+				}
+				mutated = true
+				h.logf("%s(#%d)=%s", how, indexOf(order, ids[i]), okerr(err))
+				check(rt, "Mutate/"+how)
+			},
 			"terminate": func(rt *rapid.T) {
 				ids := liveIDs()
 				if len(ids) == 0 {
@@ -245,6 +274,9 @@ func TestPropSubscriberManager(t *testing.T) {
 		}
 		if contended {
 			cls = append(cls, "submgr:mac-contended")
+		}
+		if mutated {
+			cls = append(cls, "submgr:id-addressed-mutators")
 		}
 		nontrivial := nt || fa.reused || contended
 		if nontrivial {
@@ -279,12 +311,22 @@ const (
 	sigStoreSessMAC    = "C20/statestore/session-mac-index-lost/DeleteSession"
 	sigStoreSessIPMiss = "C20/statestore/session-ip-index-lost/UpdateSession"
 	sigStoreSessIPOld  = "C20/statestore/session-ip-index-stale/UpdateSession"
+
+	// in-place update (the pointer Get returned is mutated and handed back) that changes MAC or address: the
+	// store cannot see the previous key any more and leaves it indexed; a key lookup that leads to a record which
+	// does not carry that key (any more), or to a deleted record ((nil, nil): the dead id left under the old MAC
+	// can become the newest entry of that MAC's list several deletes later), is reported under these once such an
+	// update happened; the other "lost" kinds - a live record's CURRENT key is not indexed - keep their own signatures
+	sigStoreInPlaceLease = "C20/statestore/old-key-still-indexed-after-in-place-key-change/UpdateLease"
+	sigStoreInPlaceSess  = "C20/statestore/old-key-still-indexed-after-in-place-key-change/UpdateSession"
 )
 
 type storeRec struct {
 	id  string
 	mac string
 	ip  string // "" = none
+	// inPlaceOlder: was updated in place while a NEWER record of the same MAC existed
+	inPlaceOlder bool
 }
 
 // TestPropStateStore: leases and sessions of state.Store: create (a second record for a MAC that already has
@@ -311,6 +353,22 @@ func TestPropStateStore(t *testing.T) {
 		}
 		freedIP := map[string]string{} // "kind|ip" -> record id that gave it up
 		nt, dupMAC, ipUpdated := false, false, false
+		// in-place updates that change a key are a listed finding on the pinned tree: kept to a quarter of the cases
+		inPlaceKeyChange := !(vstat.IsListed(sigStoreInPlaceLease) || vstat.IsListed(sigStoreInPlaceSess)) || rapid.IntRange(0, 3).Draw(rt, "allowInPlaceKeyChange") == 0
+		taintL, taintS := false, false // an in-place key-changing update happened on the lease / session table
+		cl := map[string]bool{}
+		lk := func(kind, op string) string {
+			if taintL {
+				return "old-key-still-indexed-after-in-place-key-change/UpdateLease"
+			}
+			return kind + "/" + op
+		}
+		sk := func(kind, op string) string {
+			if taintS {
+				return "old-key-still-indexed-after-in-place-key-change/UpdateSession"
+			}
+			return kind + "/" + op
+		}
 		freeIP := func(rt *rapid.T, kind string, recs []*storeRec, third byte) string {
 			// a disciplined caller never stores one address for two live records; prefer released addresses
 			var cands []string
@@ -365,7 +423,7 @@ func TestPropStateStore(t *testing.T) {
 					}
 				}
 				if !ok {
-					return !h.fail(rt, "lease-ip-index-stale/"+op, "GetLeaseByIP(%s) reports a hit but leads to %v, not a live lease of that address", ip, leaseID(b))
+					return !h.fail(rt, lk("lease-ip-index-stale", op), "GetLeaseByIP(%s) reports a hit but leads to %v, not a live lease of that address", ip, leaseID(b))
 				}
 			}
 			for _, mac := range idxMACs {
@@ -377,8 +435,12 @@ func TestPropStateStore(t *testing.T) {
 							ok = true
 						}
 					}
+					if !ok && b == nil && hasMAC(leases, mac.String()) {
+						// (nil, nil): the index names an id that no longer exists although the MAC has a live lease
+						return !h.fail(rt, lk("lease-mac-index-lost", op), "a live lease has MAC %s but GetLeaseByMAC returns (nil, nil): the index leads to a deleted lease", mac)
+					}
 					if !ok {
-						return !h.fail(rt, "lease-mac-index-stale/"+op, "GetLeaseByMAC(%s) reports a hit but leads to %v, not a live lease of that MAC", mac, leaseID(b))
+						return !h.fail(rt, lk("lease-mac-index-stale", op), "GetLeaseByMAC(%s) reports a hit but leads to %v, not a live lease of that MAC", mac, leaseID(b))
 					}
 				} else if hasMAC(leases, mac.String()) {
 					return !h.fail(rt, "lease-mac-index-lost/"+op, "a live lease has MAC %s but GetLeaseByMAC fails: %v", mac, err)
@@ -410,7 +472,7 @@ func TestPropStateStore(t *testing.T) {
 					}
 				}
 				if !ok {
-					return !h.fail(rt, "session-ip-index-stale/"+op, "GetSessionByIP(%s) reports a hit but leads to %v, not a live session with that address", ip, sessionID(b))
+					return !h.fail(rt, sk("session-ip-index-stale", op), "GetSessionByIP(%s) reports a hit but leads to %v, not a live session with that address", ip, sessionID(b))
 				}
 			}
 			for _, mac := range idxMACs {
@@ -422,8 +484,11 @@ func TestPropStateStore(t *testing.T) {
 							ok = true
 						}
 					}
+					if !ok && b == nil && hasMAC(sessions, mac.String()) {
+						return !h.fail(rt, sk("session-mac-index-lost", op), "a live session has MAC %s but GetSessionByMAC returns (nil, nil): the index leads to a deleted session", mac)
+					}
 					if !ok {
-						return !h.fail(rt, "session-mac-index-stale/"+op, "GetSessionByMAC(%s) reports a hit but leads to %v, not a live session of that MAC", mac, sessionID(b))
+						return !h.fail(rt, sk("session-mac-index-stale", op), "GetSessionByMAC(%s) reports a hit but leads to %v, not a live session of that MAC", mac, sessionID(b))
 					}
 				} else if hasMAC(sessions, mac.String()) {
 					return !h.fail(rt, "session-mac-index-lost/"+op, "a live session has MAC %s but GetSessionByMAC fails: %v", mac, err)
@@ -443,6 +508,45 @@ func TestPropStateStore(t *testing.T) {
 			}
 			i := rapid.SampledFrom(idx).Draw(rt, "rec")
 			return i, l[i]
+		}
+		// pickForUpdate: any live record; every other time (if there is one) a record of a MAC that has several live
+		// records, at a drawn position among them (oldest / middle / newest).  newer reports whether a newer record
+		// of the same MAC exists.
+		pickForUpdate := func(rt *rapid.T, l []*storeRec) (r *storeRec, pos string, newer bool) {
+			groups := map[string][]*storeRec{}
+			var multi []string
+			for _, x := range liveOf(l) {
+				groups[x.mac] = append(groups[x.mac], x)
+				if len(groups[x.mac]) == 2 {
+					multi = append(multi, x.mac)
+				}
+			}
+			if len(multi) > 0 && rapid.Bool().Draw(rt, "fromMultiMAC") {
+				g := groups[rapid.SampledFrom(multi).Draw(rt, "multiMAC")]
+				i := rapid.IntRange(0, len(g)-1).Draw(rt, "position")
+				pos = "middle"
+				if i == 0 {
+					pos = "oldest"
+				} else if i == len(g)-1 {
+					pos = "newest"
+				}
+				return g[i], pos, i < len(g)-1
+			}
+			_, r = pickLive(rt, l)
+			g := groups[r.mac]
+			if len(g) == 1 {
+				return r, "single", false
+			}
+			return r, "some", g[len(g)-1] != r
+		}
+		otherMAC := func(rt *rapid.T, cur string) net.HardwareAddr {
+			var c []net.HardwareAddr
+			for _, m := range idxMACs {
+				if m.String() != cur {
+					c = append(c, m)
+				}
+			}
+			return rapid.SampledFrom(c).Draw(rt, "newMAC")
 		}
 		noteTake := func(kind, ip, id string) {
 			if f, ok := freedIP[kind+"|"+ip]; ok && f != id {
@@ -474,16 +578,85 @@ func TestPropStateStore(t *testing.T) {
 				check(rt, "CreateLease")
 			},
 			"updateLease": func(rt *rapid.T) {
-				_, r := pickLive(rt, leases)
+				r, pos, newer := pickForUpdate(rt, leases)
 				cur, err := st.GetLease(r.id)
 				if err != nil {
 					rt.Fatalf("INCONCLUSIVE GetLease: %v", err)
 				}
-				cp := *cur
-				cp.Hostname = "host-" + rapid.StringN(1, 4, -1).Draw(rt, "hostname")
-				err = st.UpdateLease(&cp)
-				h.logf("updateLease(#%d)=%s", indexRec(leases, r), okerr(err))
+				inPlace := rapid.Bool().Draw(rt, "inPlace")
+				change := rapid.SampledFrom([]string{"none", "none", "ip", "mac"}).Draw(rt, "change")
+				if inPlace && change != "none" && !inPlaceKeyChange {
+					change = "none"
+				}
+				newIP, newMAC := r.ip, r.mac
+				var macVal net.HardwareAddr
+				if change == "ip" {
+					if ip := freeIP(rt, "lease", leases, 1); ip != "" {
+						newIP = ip
+					} else {
+						change = "none"
+					}
+				}
+				if change == "mac" {
+					macVal = otherMAC(rt, r.mac)
+					if hasMAC(leases, macVal.String()) && !allowDupMAC {
+						change, macVal = "none", nil
+					} else {
+						newMAC = macVal.String()
+					}
+				}
+				target := cur // in place: the pointer the store handed out is mutated and handed back
+				if !inPlace {
+					cp := *cur
+					target = &cp
+				}
+				target.Hostname = "host-" + rapid.StringN(1, 4, -1).Draw(rt, "hostname")
+				if newIP != r.ip {
+					target.IPv4 = net.ParseIP(newIP).To4()
+				}
+				if macVal != nil {
+					target.MAC = macVal
+				}
+				err = st.UpdateLease(target)
+				mode := "copy"
+				if inPlace {
+					mode = "in-place"
+				}
+				h.logf("updateLease(#%d,%s,%s,%s->%s,%s->%s)=%s", indexRec(leases, r), mode, pos, r.ip, newIP, r.mac, newMAC, okerr(err))
+				cl["statestore:update:"+mode] = true
+				if change != "none" {
+					cl["statestore:update:key-changed"] = true
+					cl["statestore:update:"+mode+"-key-changed"] = true
+					if inPlace {
+						taintL = true
+					}
+				}
+				if newer {
+					cl["statestore:update-of-older-record-of-multi-mac"] = true
+					if inPlace {
+						r.inPlaceOlder = true
+					}
+				}
+				if err == nil {
+					if newIP != r.ip {
+						freedIP["lease|"+r.ip] = r.id
+						noteTake("lease", newIP, r.id)
+						r.ip = newIP
+					}
+					if newMAC != r.mac {
+						if hasMAC(leases, newMAC) {
+							dupMAC = true
+						}
+						r.mac = newMAC
+					}
+				}
 				check(rt, "UpdateLease")
+			},
+			"renewLease": func(rt *rapid.T) {
+				r, _, _ := pickForUpdate(rt, leases)
+				err := st.RenewLease(r.id, time.Hour)
+				h.logf("renewLease(#%d)=%s", indexRec(leases, r), okerr(err))
+				check(rt, "RenewLease")
 			},
 			"deleteLease": func(rt *rapid.T) {
 				i, r := pickLive(rt, leases)
@@ -491,6 +664,9 @@ func TestPropStateStore(t *testing.T) {
 				h.logf("deleteLease(#%d)=%s", i, okerr(err))
 				freedIP["lease|"+r.ip] = r.id
 				leases[i] = nil
+				if r.inPlaceOlder && hasMAC(leases, r.mac) {
+					cl["statestore:in-place-updated-older-record-deleted-while-mac-still-live"] = true
+				}
 				check(rt, "DeleteLease")
 			},
 			"createSession": func(rt *rapid.T) {
@@ -521,32 +697,92 @@ func TestPropStateStore(t *testing.T) {
 				check(rt, "CreateSession")
 			},
 			"updateSession": func(rt *rapid.T) {
-				_, r := pickLive(rt, sessions)
+				r, pos, newer := pickForUpdate(rt, sessions)
 				cur, err := st.GetSession(r.id)
 				if err != nil {
 					rt.Fatalf("INCONCLUSIVE GetSession: %v", err)
 				}
-				cp := *cur
-				cp.Username = "user-" + rapid.StringN(1, 4, -1).Draw(rt, "user")
-				newIP := r.ip
-				if allowIPUpdate && rapid.Bool().Draw(rt, "setAddress") {
+				inPlace := rapid.Bool().Draw(rt, "inPlace")
+				change := rapid.SampledFrom([]string{"none", "none", "ip", "mac"}).Draw(rt, "change")
+				if change == "ip" && !allowIPUpdate {
+					change = "none"
+				}
+				if inPlace && change != "none" && !inPlaceKeyChange {
+					change = "none"
+				}
+				newIP, newMAC := r.ip, r.mac
+				var macVal net.HardwareAddr
+				if change == "ip" {
 					// the session learns its address after creation (DHCP/IPCP finished) or gets a new one
 					if ip := freeIP(rt, "session", sessions, 2); ip != "" {
 						newIP = ip
-						cp.IPv4 = net.ParseIP(ip).To4()
+					} else {
+						change = "none"
 					}
 				}
-				err = st.UpdateSession(&cp)
-				h.logf("updateSession(#%d,%s->%s)=%s", indexRec(sessions, r), r.ip, newIP, okerr(err))
-				if err == nil && newIP != r.ip {
-					ipUpdated = true
-					if r.ip != "" {
-						freedIP["session|"+r.ip] = r.id
+				if change == "mac" {
+					macVal = otherMAC(rt, r.mac)
+					if hasMAC(sessions, macVal.String()) && !allowDupMAC {
+						change, macVal = "none", nil
+					} else {
+						newMAC = macVal.String()
 					}
-					noteTake("session", newIP, r.id)
-					r.ip = newIP
+				}
+				target := cur
+				if !inPlace {
+					cp := *cur
+					target = &cp
+				}
+				target.Username = "user-" + rapid.StringN(1, 4, -1).Draw(rt, "user")
+				if newIP != r.ip {
+					target.IPv4 = net.ParseIP(newIP).To4()
+				}
+				if macVal != nil {
+					target.MAC = macVal
+				}
+				err = st.UpdateSession(target)
+				mode := "copy"
+				if inPlace {
+					mode = "in-place"
+				}
+				h.logf("updateSession(#%d,%s,%s,%s->%s,%s->%s)=%s", indexRec(sessions, r), mode, pos, r.ip, newIP, r.mac, newMAC, okerr(err))
+				cl["statestore:update:"+mode] = true
+				if change != "none" {
+					cl["statestore:update:key-changed"] = true
+					cl["statestore:update:"+mode+"-key-changed"] = true
+					if inPlace {
+						taintS = true
+					}
+				}
+				if newer {
+					cl["statestore:update-of-older-record-of-multi-mac"] = true
+					if inPlace {
+						r.inPlaceOlder = true
+					}
+				}
+				if err == nil {
+					if newIP != r.ip {
+						ipUpdated = true
+						if r.ip != "" {
+							freedIP["session|"+r.ip] = r.id
+						}
+						noteTake("session", newIP, r.id)
+						r.ip = newIP
+					}
+					if newMAC != r.mac {
+						if hasMAC(sessions, newMAC) {
+							dupMAC = true
+						}
+						r.mac = newMAC
+					}
 				}
 				check(rt, "UpdateSession")
+			},
+			"sessionActivity": func(rt *rapid.T) {
+				r, _, _ := pickForUpdate(rt, sessions)
+				err := st.UpdateSessionActivity(r.id, 10, 20)
+				h.logf("sessionActivity(#%d)=%s", indexRec(sessions, r), okerr(err))
+				check(rt, "UpdateSessionActivity")
 			},
 			"deleteSession": func(rt *rapid.T) {
 				i, r := pickLive(rt, sessions)
@@ -556,6 +792,9 @@ func TestPropStateStore(t *testing.T) {
 					freedIP["session|"+r.ip] = r.id
 				}
 				sessions[i] = nil
+				if r.inPlaceOlder && hasMAC(sessions, r.mac) {
+					cl["statestore:in-place-updated-older-record-deleted-while-mac-still-live"] = true
+				}
 				check(rt, "DeleteSession")
 			},
 		}))
@@ -566,6 +805,12 @@ func TestPropStateStore(t *testing.T) {
 		if ipUpdated {
 			cls = append(cls, "statestore:session-address-updated")
 		}
+		var extra []string
+		for c := range cl {
+			extra = append(extra, c)
+		}
+		sort.Strings(extra)
+		cls = append(cls, extra...)
 		nontrivial := nt || dupMAC
 		if nontrivial {
 			cls = append(cls, "nt:reacquired-or-contended", "nt:"+cls[0])
@@ -624,6 +869,7 @@ func TestPropAllocationStore(t *testing.T) {
 		holder := map[string]key{} // ip -> (pool, sub)
 		freedBy := map[string]key{}
 		nt, contended, changed := false, false, false
+		modes := map[string]bool{}
 		allowChange := !vstat.IsListed(sigAllocStoreStale) || rapid.IntRange(0, 2).Draw(rt, "allowAddressChange") == 0
 		check := func(rt *rapid.T, op string) bool {
 			n := 0
@@ -684,8 +930,33 @@ func TestPropAllocationStore(t *testing.T) {
 					}
 				}
 				rec := allocator.AllocationRecord{SubscriberID: k.sub, PoolID: k.pool, PoolType: allocator.PoolTypeIPv4Address, Prefix: &net.IPNet{IP: ip, Mask: net.CIDRMask(32, 32)}, MAC: "02:00:00:00:02:0" + k.sub[1:]}
+				// delivery mode of a re-save: a fresh record (above); a copy of the record GetByIP handed out, changed;
+				// or that record changed IN PLACE through the returned pointer and then saved
+				mode := "fresh"
+				if cur, ok := has[k]; ok {
+					if ptr, gerr := st.GetByIP(ctx, net.ParseIP(cur)); gerr == nil && ptr != nil && ptr.SubscriberID == k.sub && ptr.PoolID == k.pool {
+						switch rapid.SampledFrom([]string{"fresh", "copy", "in-place"}).Draw(rt, "delivery") {
+						case "copy":
+							cp := *ptr
+							cp.MAC = rec.MAC
+							cp.Metadata = map[string]string{"note": "resaved"}
+							cp.Prefix = rec.Prefix
+							rec, mode = cp, "copy"
+						case "in-place":
+							ptr.MAC = rec.MAC
+							ptr.Metadata = map[string]string{"note": "resaved"}
+							want := rec.Prefix
+							if o, taken := holder[ip.String()]; !taken || o == k {
+								ptr.Prefix = want // a caller only moves its own record onto an address it believes free
+							}
+							rec, mode = *ptr, "in-place"
+							rec.Prefix = want
+						}
+					}
+				}
+				modes[mode] = true
 				err := st.SaveAllocation(ctx, rec)
-				h.logf("save(%s,%s,%s)=%s", k.pool, k.sub, ip, okerr(err))
+				h.logf("save(%s,%s,%s,%s)=%s", k.pool, k.sub, ip, mode, okerr(err))
 				o, taken := holder[ip.String()]
 				if taken && o != k {
 					contended = true
@@ -729,6 +1000,11 @@ func TestPropAllocationStore(t *testing.T) {
 		}
 		if contended {
 			cls = append(cls, "allocstore:contended")
+		}
+		for _, md := range []string{"copy", "in-place"} {
+			if modes[md] {
+				cls = append(cls, "allocstore:resave:"+md)
+			}
 		}
 		nontrivial := nt || contended
 		if nontrivial {
